@@ -307,7 +307,7 @@ func (r *Run) Violation(caseIdx int, class string, witness interface{}) {
 		r.classPrinted = map[string]int{}
 	}
 	r.classPrinted[class]++
-	if r.printedViol >= 40 || r.classPrinted[class] > 3 {
+	if r.printedViol >= int(envInt("VERIF_MAX_REPLAYS", 40)) || r.classPrinted[class] > int(envInt("VERIF_MAX_PER_CLASS", 3)) {
 		return
 	}
 	r.printedViol++
